@@ -412,6 +412,15 @@ func c18Body(rc *RunCtx) {
 	disk := simos.Reset()
 	d.disk = disk
 	disk.MkdirAllRaw("/wh")
+	switch simrt.Choose(4) {
+	case 1:
+		disk.Env["WHATAP_CONFIG"] = "custom.conf" // other file name through the environment
+		d.path = "/wh/custom.conf"
+	case 2:
+		disk.Env["WHATAP_CONFIG_HOME"] = "/etc/whatap" // other directory through the environment
+		disk.MkdirAllRaw("/etc/whatap")
+		d.path = "/etc/whatap/whatap.conf"
+	}
 	d.cur = c18GenFile(nil)
 	d.Versions = append(d.Versions, d.cur)
 	d.noteVersion(d.cur)
